@@ -252,7 +252,8 @@ Definition in_range (lim : Z) (h : Z) : bool := (0 <=? h) && (h <? lim).
 
 (* what the writer can express and the reader accepts for a mesh object of dimension `dim`:
    counts below 2^30 (every half-entity handle is a valid int), every stored handle in range, one position per vertex,
-   not "every face/cell has valence 0" (that is written as fixed valence 0 / encoding None, see Props/Properties_C06.v),
+   no face of valence 0 (outside the kernel's contract: the writer's face_halfedges circulator reads halfedges()[0]) and
+   not "every cell has valence 0" (that is written as fixed valence 0 / encoding None, see Props/Properties_C06.v),
    valences below 2^32, properties with a registered type, distinct (entity, name, type), one value per entity *)
 Definition wf_fileb (dim : Z) (m : meshfile) : bool :=
   (0 <=? m_nv m) && (m_nv m <? 1073741824) && (len (m_edges m) <? 1073741824) &&
@@ -262,7 +263,7 @@ Definition wf_fileb (dim : Z) (m : meshfile) : bool :=
   forallb (fun e => in_range (m_nv m) (fst e) && in_range (m_nv m) (snd e)) (m_edges m) &&
   forallb (fun f => forallb (in_range (2 * len (m_edges m))) f && (len f <? two32)) (m_faces m) &&
   forallb (fun c => forallb (in_range (2 * len (m_faces m))) c && (len c <? two32)) (m_cells m) &&
-  (match m_faces m with [] => true | _ => negb (forallb (fun f => len f =? 0) (m_faces m)) end) &&
+  forallb (fun f => negb (len f =? 0)) (m_faces m) &&
   (match m_cells m with [] => true | _ => negb (forallb (fun c => len c =? 0) (m_cells m)) end) &&
   forallb (prop_okb m) (m_props m) && nodup_props (m_props m).
 
